@@ -348,6 +348,11 @@ def r9_digit_fast_path(ctx):
                    "down the ragged path with its masks", ok, f"guards: {sorted(k for k, v in facts if not v)}", key=f"C18-R9|fast-path-excludes|{c}")
 
 
+def _optional_int_formatter(ctx):
+    from .c03 import _optional_int_formatter as f
+    f(ctx)                   # Optional[int] columns are formatted as integers (no detour through float64, which rounds above 2**53)
+
+
 RULES = [
     ("C18-R1", r1_formatting),
     ("C18-R2", r2_parsing),
@@ -360,4 +365,5 @@ RULES = [
     ("C18-R7", _delta_arrays),
     ("C18-R8", _copy_copies),
     ("C18-R9", r9_digit_fast_path),
+    ("C18-R10", _optional_int_formatter),
 ]
